@@ -9,95 +9,112 @@
 //     multiaddr_matches_peer_id(addr, peer) == false  <=>  last(addr) == P2p(q), q != peer
 // and after the filter statement `listen_addrs` holds exactly the addresses that
 // do not name a different peer, in their original order.
-// Real function, real `Multiaddr`; address SHAPES are enumerated, payloads (IPs,
-// ports, peer ids over 256 values) symbolic.
+//
+// Group "seq": both texts are extracted verbatim on every run and compiled against
+// the stand-ins of units/C46/model.rs (Multiaddr = finite sequence of a 5-variant
+// component enum, PeerId = 256 identifiers): ANY address of <= 4 components.
+// Measured: on the real `Multiaddr` with a symbolic /p2p component every harness
+// (one concrete 3-component shape included) exceeds 300 s at machine load ~30.
 
-use std::net::Ipv4Addr;
-
-fn peer(b: u8) -> PeerId {
-    PeerId::from_multihash(libp2p_core::multihash::Multihash::<64>::wrap(0, &[b]).unwrap()).unwrap()
-}
-fn ip_tcp() -> Multiaddr {
-    Multiaddr::empty().with(Protocol::Ip4(Ipv4Addr::from(kani::any::<u32>()))).with(Protocol::Tcp(kani::any()))
-}
-
-pub(crate) struct InfoEnv {
-    pub(crate) listen_addrs: Vec<Multiaddr>,
-}
-// fn filter_listen_addrs(info: &mut InfoEnv, peer_id: PeerId) { <verbatim retain statement> }
-include!(concat!(env!("LIBP2P_VERIF_GEN"), "/C46/filter_stmt.rs"));
-
-/// /ip4/x/tcp/p/p2p/q : false <=> q != peer
-#[kani::proof]
-#[kani::unwind(20)]
-fn trailing_p2p_matches_iff_same_peer() {
-    let q = peer(kani::any());
-    let me = peer(kani::any());
-    let a = ip_tcp().with(Protocol::P2p(q));
-    let r = multiaddr_matches_peer_id(&a, &me);
-    kani::cover!(r);
-    kani::cover!(!r);
-    assert!(r == (q == me));
-}
-
-/// relayed address /ip4/x/tcp/p/p2p/relay/p2p-circuit/p2p/q : only the LAST /p2p counts
-#[kani::proof]
-#[kani::unwind(20)]
-fn relayed_address_is_judged_by_its_last_component() {
-    let relay = peer(kani::any());
-    let q = peer(kani::any());
-    let me = peer(kani::any());
-    let a = ip_tcp().with(Protocol::P2p(relay)).with(Protocol::P2pCircuit).with(Protocol::P2p(q));
-    assert!(multiaddr_matches_peer_id(&a, &me) == (q == me));
-}
-
-/// last component is not /p2p (plain transport address, address ending in /p2p-circuit
-/// after a relay's id, empty address): never refused
-#[kani::proof]
-#[kani::unwind(20)]
-fn address_without_trailing_p2p_is_kept() {
-    let me = peer(kani::any());
-    assert!(multiaddr_matches_peer_id(&ip_tcp(), &me));
-    assert!(multiaddr_matches_peer_id(&ip_tcp().with(Protocol::P2p(peer(kani::any()))).with(Protocol::P2pCircuit), &me));
-    assert!(multiaddr_matches_peer_id(&Multiaddr::empty(), &me));
-}
-
-/// the filter statement of on_connection_handler_event: what is reported afterwards
-/// contains no address naming a different peer, and drops nothing else
-#[kani::proof]
-#[kani::unwind(20)]
-fn reported_listen_addrs_never_name_a_different_peer() {
-    let me = peer(kani::any());
-    let q1 = peer(kani::any());
-    let q2 = peer(kani::any());
-    let a1 = ip_tcp().with(Protocol::P2p(q1));
-    let a2 = ip_tcp();
-    let a3 = ip_tcp().with(Protocol::P2p(q2));
-    let mut info = InfoEnv { listen_addrs: vec![a1.clone(), a2.clone(), a3.clone()] };
-    filter_listen_addrs(&mut info, me);
-    // exactly the addresses that do not name a different peer, in their original order
-    let l = &info.listen_addrs;
-    let (k1, k2) = (q1 == me, q2 == me);
-    kani::cover!(!k1 && !k2);
-    kani::cover!(k1 && k2);
-    assert!(l.len() == 1 + k1 as usize + k2 as usize, "an address naming a different peer is still reported, or a good one was dropped");
-    let mut i = 0;
-    if k1 {
-        assert!(l[i] == a1);
-        i += 1;
+pub(crate) mod seq {
+    pub(crate) mod model {
+        include!(concat!(env!("LIBP2P_VERIF"), "/units/C46/model.rs"));
     }
-    assert!(l[i] == a2);
-    i += 1;
-    if k2 {
-        assert!(l[i] == a3);
+    use self::model::{Multiaddr, PeerId, Protocol};
+    // the extracted text names the component type by the path `multiaddr::Protocol`
+    mod multiaddr {
+        pub(crate) use super::model::Protocol;
     }
-    std::mem::forget(info);
-}
 
-/// Vacuity canary: must FAIL.
-#[kani::proof]
-#[kani::unwind(20)]
-fn canary_every_address_matches() {
-    let a = ip_tcp().with(Protocol::P2p(peer(kani::any())));
-    assert!(multiaddr_matches_peer_id(&a, &peer(kani::any())));
+    pub(crate) struct InfoEnv {
+        pub(crate) listen_addrs: Vec<Multiaddr>,
+    }
+    // <verbatim fn item multiaddr_matches_peer_id>
+    // fn filter_listen_addrs(info: &mut InfoEnv, peer_id: PeerId) { <verbatim retain statement> }
+    include!(concat!(env!("LIBP2P_VERIF_GEN"), "/C46/filter_stmt.rs"));
+
+    fn any_component() -> Protocol {
+        let k: u8 = kani::any();
+        match k {
+            0 => Protocol::Ip4(kani::any()),
+            1 => Protocol::Ip6(kani::any()),
+            2 => Protocol::P2p(PeerId(kani::any())),
+            3 => Protocol::P2pCircuit,
+            _ => Protocol::Other(kani::any(), kani::any()),
+        }
+    }
+    fn any_addr(max: usize) -> Multiaddr {
+        let n: usize = kani::any();
+        kani::assume(n <= max);
+        let mut a = Multiaddr::empty();
+        let mut i = 0;
+        while i < max {
+            if i < n {
+                a.push(any_component());
+            }
+            i += 1;
+        }
+        a
+    }
+    /// the statement's notion, written independently: last component is /p2p/<q>, q != peer
+    fn names_a_different_peer(a: &Multiaddr, peer: PeerId) -> bool {
+        let mut last = None;
+        for p in a.iter() {
+            last = Some(p);
+        }
+        matches!(last, Some(Protocol::P2p(q)) if q != peer)
+    }
+
+    /// any address of <= 4 components: false <=> it names a different peer
+    #[kani::proof]
+    #[kani::unwind(7)]
+    fn matches_is_false_iff_last_component_names_another_peer() {
+        let a = any_addr(4);
+        let me = PeerId(kani::any());
+        let r = multiaddr_matches_peer_id(&a, &me);
+        kani::cover!(r && a.len() == 4);
+        kani::cover!(!r);
+        assert!(r == !names_a_different_peer(&a, me));
+    }
+
+    /// relayed address .../p2p/<relay>/p2p-circuit/p2p/<q>: the relay's id does not count
+    #[kani::proof]
+    #[kani::unwind(7)]
+    fn relayed_address_is_judged_by_its_last_component() {
+        let (relay, q, me) = (PeerId(kani::any()), PeerId(kani::any()), PeerId(kani::any()));
+        let a = Multiaddr::empty().with(any_component()).with(Protocol::P2p(relay)).with(Protocol::P2pCircuit).with(Protocol::P2p(q));
+        assert!(multiaddr_matches_peer_id(&a, &me) == (q == me));
+        let b = Multiaddr::empty().with(any_component()).with(Protocol::P2p(relay)).with(Protocol::P2pCircuit);
+        assert!(multiaddr_matches_peer_id(&b, &me));
+    }
+
+    /// the filter statement of on_connection_handler_event on ANY two listen addresses:
+    /// what is reported afterwards contains no address naming a different peer, and
+    /// every other address is still there, in order
+    #[kani::proof]
+    #[kani::unwind(7)]
+    fn reported_listen_addrs_never_name_a_different_peer() {
+        let me = PeerId(kani::any());
+        let (a1, a2) = (any_addr(2), any_addr(2));
+        let (k1, k2) = (!names_a_different_peer(&a1, me), !names_a_different_peer(&a2, me));
+        let mut info = InfoEnv { listen_addrs: vec![a1.clone(), a2.clone()] };
+        filter_listen_addrs(&mut info, me);
+        let l = &info.listen_addrs;
+        kani::cover!(l.len() == 0);
+        kani::cover!(l.len() == 2);
+        assert!(l.len() == k1 as usize + k2 as usize, "a listen address naming a different peer is still reported, or another one was dropped");
+        if k1 {
+            assert!(l[0] == a1);
+        }
+        if k2 {
+            assert!(l[k1 as usize] == a2);
+        }
+    }
+
+    /// Vacuity canary: must FAIL.
+    #[kani::proof]
+    #[kani::unwind(7)]
+    fn canary_every_address_matches() {
+        assert!(multiaddr_matches_peer_id(&any_addr(4), &PeerId(kani::any())));
+    }
 }
